@@ -258,7 +258,7 @@ func flattenScenarios(tier string, seed int64, scratch string) ([]*Case, []strin
 				b.Feat.NonPlain = true
 			}
 		}
-		c := &Case{Tid: fmt.Sprintf("s%d", i), Source: "tlc", Seed: seed, Bundle: b, Names: g.Names.ToConcrete, RefStyle: 0, Note: fs.Key()}
+		c := &Case{Tid: fmt.Sprintf("s%d", i), Source: "tlc", Seed: seed, Bundle: b, Names: g.Names.ToConcrete, RefStyle: 2, Note: fs.Key()}
 		if err := c.Materialize(filepath.Join(scratch, c.Tid)); err != nil {
 			errs = append(errs, err.Error())
 			continue
